@@ -320,9 +320,24 @@ func (st *State) freshLike(name string, v Val) Val {
 func (st *State) unrollLoop(lp *loopParts, n int) []Outcome {
 	cur := []*State{st}
 	var outs []Outcome
+	if st.fc.ceUnroll > 0 {
+		// counterexample mode is a best-effort search: nested loops are unrolled less deeply and the total number of
+		// explored loop states is capped, so that it can never exhaust memory (it then simply finds no input)
+		st.fc.ceDepth++
+		defer func() { st.fc.ceDepth-- }()
+		if st.fc.ceDepth > 1 && n > 3 {
+			n = 3
+		}
+	}
 	for iter := 0; iter <= n; iter++ {
 		var next []*State
 		for _, s := range cur {
+			if st.fc.ceUnroll > 0 {
+				st.fc.ceStates++
+				if st.fc.ceStates > 600 {
+					continue
+				}
+			}
 			bodySt := s
 			if lp.cond != nil {
 				c := s.cond(lp)
@@ -373,6 +388,9 @@ func (st *State) unrollLoop(lp *loopParts, n int) []Outcome {
 		cur = next
 		if len(cur) == 0 {
 			break
+		}
+		if len(cur) > 16 && st.fc.ceUnroll > 0 {
+			cur = cur[:16]
 		}
 		if len(cur) > 64 {
 			if st.fc.ceUnroll > 0 {
